@@ -216,8 +216,10 @@ def explicit_branch(b):
     import lena.core
     kind = b["kind"]
     if kind == "source":
+        if b.get("sub"):
+            return source_subclass()(*source_args(b))
         return lena.core.Source(*source_args(b))
-    if b["form"] == "bare":
+    if b["form"] in ("bare", "tuple_bare"):
         bare = bare_branch(b)
         return lena.core.Sequence(bare) if kind == "seq" else bare
     els = chain_els(b)
@@ -229,8 +231,39 @@ def explicit_branch(b):
     return lena.core.Sequence(*els)
 
 
+_SOURCE_SUBCLASS = []
+
+
+def source_subclass():
+    """A user's subclass of Source (a packaged data set): a Source like any other."""
+    import lena.core
+    if not _SOURCE_SUBCLASS:
+        class DataSet(lena.core.Source):
+            """Source with a name of its own."""
+        _SOURCE_SUBCLASS.append(DataSet)
+    return _SOURCE_SUBCLASS[0]
+
+
+def bare_run_element(b):
+    """A single run element given bare as a branch (not in a tuple, not in a Sequence): a plain
+    Sequence branch.  Its results carry the branch tag."""
+    import lena.core
+    r = b["bare_el"]
+    if r[0] == "isplit":
+        # an inner Split of branches of different kinds ("Split can be used within a Split")
+        return lena.core.Split([real_branch(ib) for ib in r[1]], bufsize=r[2])
+    if r[0] == "fradapter_run":
+        # the FillRequest adapter around a run-only element: documented to have no fill and
+        # request, it is run chunk by chunk
+        inner = lena.core.Sequence(*([build_el(e) for e in r[1]] + [TagD(b["tag"])]))
+        return lena.core.FillRequest(inner, bufsize=r[2], **{r[3]: True})
+    raise ValueError(r)
+
+
 def bare_branch(b):
     kind = b["kind"]
+    if kind == "seq" and b.get("bare_el"):
+        return bare_run_element(b)
     if kind == "fc" and b.get("iterable"):
         return IterFC(b["tag"])
     if kind == "fc":
@@ -248,6 +281,8 @@ def real_branch(b):
         return explicit_branch(b)
     if b["form"] == "bare":
         return bare_branch(b)
+    if b["form"] == "tuple_bare":
+        return (bare_branch(b),)
     return tuple(chain_els(b))
 
 
@@ -344,8 +379,11 @@ def rand_source(rng, idx, tag):
         vals = [start + i for i in range(n)]
     else:
         vals = [[start + i, {"s": i}] for i in range(n)]
-    return {"kind": "source", "tag": tag, "form": "explicit", "src": src, "start": start,
-            "vals": vals, "tail": [rand_pervalue(rng, 1) for _ in range(rng.choice([0, 0, 1]))]}
+    b = {"kind": "source", "tag": tag, "form": "explicit", "src": src, "start": start,
+         "vals": vals, "tail": [rand_pervalue(rng, 1) for _ in range(rng.choice([0, 0, 1]))]}
+    if rng.random() < 0.25:
+        b["sub"] = 1
+    return b
 
 
 def rand_branch(rng, idx, nflow, kind=None, allow_stop=True, tagprefix="b"):
@@ -353,6 +391,30 @@ def rand_branch(rng, idx, nflow, kind=None, allow_stop=True, tagprefix="b"):
     tag = "%s%d" % (tagprefix, idx)
     if kind == "source":
         return rand_source(rng, idx, tag)
+    if kind == "seq" and tagprefix == "b" and rng.random() < 0.12:
+        # a bare run element as a branch
+        if rng.random() < 0.5:
+            inner = []
+            # (branches of one common kind would make the inner Split an element of that kind)
+            ikinds = ["seq"]
+            while len(set(ikinds)) < 2:
+                ikinds = [rng.choice(["source", "fc", "fr", "seq"])
+                          for _ in range(rng.randint(2, 3))]
+            for j, ik in enumerate(ikinds):
+                ib = rand_branch(rng, j, nflow, kind=ik, allow_stop=allow_stop, tagprefix="i")
+                ib["tag"] = tag
+                inner.append(ib)
+            bare = ["isplit", inner, rng.choice([1, 2, 1000])]
+        else:
+            a = rng.randint(0, 2)
+            bare = ["fradapter_run",
+                    [rng.choice([["reverse"], ["slice", [a, a + rng.randint(0, 3)]],
+                                 ["call", "inc"], ["count", "ac"], ["slice", [-1]]])
+                     for _ in range(rng.randint(0, 2))],
+                    rng.choice([1, 2, 3]),
+                    rng.choice(["buffer_input", "buffer_output", "yield_on_remainder"])]
+        return {"kind": "seq", "tag": tag, "form": rng.choice(["bare", "bare", "tuple_bare"]),
+                "els": [], "pervalue": False, "bare_el": bare}
     if kind == "seq":
         els, pervalue = [], True
         for _ in range(rng.choice([0, 1, 1, 2, 3])):
@@ -840,3 +902,6 @@ def run_case(r, obs):
 
 
 RULE += (' Every run-driven Split object is run a second time on a fresh copy of the flow and compared with the schedule model on the same (stateful) twin branches.')
+RULE += (' Source branches are also instances of a user subclass of Source; plain-sequence branches '
+         'are also a bare run element: an inner Split of branches of mixed kinds, or the FillRequest '
+         'adapter around a run-only sequence (buffer_input / buffer_output / yield_on_remainder).')
